@@ -26,6 +26,29 @@ CLAIMED = {
  'C26': ('6/C26', 'Per-cycle progress of every party (timer counter, PPU position, DMA progress, RTC sub-second, audio samples per frame) measured through the yield point of the real frame loop while generated guest programs (with HALT, STOP, DIV/LCDC/DMA writes whose cycle is known from the lock-step reference) run; real Run() under the simulated context with cancel-before-start, cancel at the k-th Done evaluation, cancel mid-frame, window close; outputs released.',
          TB+'Party progress is read through the verif accessors.', 'deterministic simulation: per-cycle party progress + cancellation/close fault injection into the real Run loop'),
 }
+
+CLAIMED.update({
+ 'C06': ('6/C06', 'Seeded histories of bus reads/writes over all 65,536 addresses (every I/O register, region boundaries, all regions; LCD kept off or free) interleaved with elapsing cycles, plus a single-write pass over every address; read-back after each write, whole-address-space comparison every 200 operations, against a reference memory map with register masks, echo, unusable area, unmapped I/O and a running reference timer.',
+         TB+'Sound registers are left to C18; LY/STAT mode with the LCD on to C13; OAM after a DMA is taken over from the emulator (C16 judges it); OBP bits 0-1 accepted either way.', 'deterministic simulation: bus-operation histories vs reference memory map (operation-by-operation refinement)'),
+ 'C07': ('6/C07', 'The machine is driven into a randomised state by a seeded warm-up (I/O pokes over up to two frames, timer overflow dances, DMA in flight, sound playing), then single writes are performed with no cycle in between and all 65,536 readable locations are diffed before/after; every changed location must be in the documented effect set of the written address (timer registers: exactly the reference timer effect).',
+         TB+'Effect sets are per address class as listed in the evidence rule; observation reads are side-effect free (OAM peeked).', 'deterministic simulation: before/after whole-address-space diff around scheduled single writes in seeded machine states'),
+ 'C08': ('6/C08', 'Stateful conformance of ROM banking run through the simulator: every real controller x ROM size x RAM size configuration, histories of control writes (region edges, A8 set/clear, 0/0A/small/random values) and directed all-256-value sweeps per control region; after every operation both ROM windows are read at nine addresses incl. page signatures and compared with reference controller models; every page carries a unique pattern.',
+         TB+'No clock or fault in this property (pure history dependence), said in DESIGN; DMA-vs-bank-switch interleaving is in C16.', 'deterministic simulation (weak fit): control-write histories vs reference MBC models'),
+ 'C09': ('6/C09', 'Histories of RAM enable/disable, bank/mode selects (incl. out-of-range), writes and reads over the whole window (edges, MBC2 mirrors) interleaved with elapsing cycles on every controller x RAM size; window read back after every operation and Mapper.DumpRAM compared at the end with the reference RAM model.',
+         TB+'Nothing is persisted by the emulator, so retention means across gate and bank events in a run.', 'deterministic simulation: RAM gate/bank histories vs reference cartridge RAM model'),
+ 'C10': ('6/C10', 'Clock time is really run (1,048,576 cycles of the real loop per second); a clock-warp fault jumps the live counters to just before second/minute/hour/day/overflow boundaries; histories of latch-low/latch-high/select/read/write/halt operations separated by cycles to seconds; every read compared with the reference RTC; one-second step compared on 1.6 million sampled and boundary counter states.',
+         TB+'The warp is injected into emulator and model through the verif accessor.', 'deterministic simulation: simulated time + clock-warp faults vs reference RTC'),
+ 'C11': ('6/C11', 'Storage faults at load (short, odd-sized, random, size-mismatched, missing images; every cart type byte x size codes) and hostile guests (all-256-value single-write sweeps on every control region with reads of every window, random read/write histories anywhere, random bytes and generated programs as code with random interrupt lines and key events, I/O register storms with sound retriggers, LCD and DMA restarts); any panic from emulator frames after successful construction is a violation.',
+         'Trusted: the stack classifier that attributes a panic to emulator or harness frames; the undefined-opcode guard (the emulator exits the process there by design).', 'deterministic simulation: load-time storage faults + hostile guest schedules, crash oracle'),
+ 'C13': ('6/C13, A.4', 'LCD switched off/on by the scripted bus master at arbitrary cycles (uniform, at every mode boundary +-1, at each cycle offset of a line) plus noise writes to LY/STAT/LYC/scroll; LY and STAT mode read after every cycle of 1-3 frames and compared with the reference line/mode counter.',
+         TB+'Mode 3 has the fixed 41-cycle length of the statement.', 'deterministic simulation: LCD on/off schedules vs reference line/mode counter (per-cycle refinement)'),
+ 'C14': ('6/C14, A.4', 'Single STAT source x every LYC value x 3-4 frames with LCD off/on switches at random and boundary cycles; IF bits 0-1 read and cleared after every cycle so each request is attributed to its cycle; request instants predicted by the reference counter.',
+         TB+'Only single-source configurations; line 144 and the switch-on instant accepted either way for the OAM source.', 'deterministic simulation: per-cycle interrupt-request attribution vs reference counter'),
+ 'C16': ('6/C16, A.5', 'DMA from every source page with random contents; restarts of running transfers at random and boundary cycles; ROM/RAM bank switches and source-byte writes during the transfer; OAM read over the bus at three addresses after every cycle; final OAM must hold, byte for byte, a value the source byte had during the transfer.',
+         TB+'LCD off; a byte changed during the copy may be old or new; cycles 0,1,161 of a transfer may or may not block.', 'deterministic simulation: DMA engine vs scripted bus master with mid-transfer faults'),
+ 'C17': ('6/C17', 'Generated programs move BC/DE/HL/SP through FE00-FEFF after the guest switches the LCD off at every cycle offset of a line / in every mode, or (LCD on) synchronised by polling to VBlank or mode 3; OAM peeked at every instruction boundary must equal the lock-step shadow OAM unless the reference LCD timing was in mode 2 with the LCD on during the instruction.',
+         TB+'No DMA in these programs; one boundary of slack around mode 2.', 'deterministic simulation: guest/PPU phase sweep with lock-step shadow OAM'),
+})
 NOT_YET = 'check not built yet in this session; planned in DESIGN.md section 6 (will be claimed when its simulator scenario class and oracle exist)'
 NOT_APPLICABLE = {}
 
